@@ -103,6 +103,10 @@ def extract(repo=None, cfg="dev", target_dir=None, use_cache=True):
     out = os.path.join(CACHE, "facts", key)
     want = [os.path.join(out, "basic.rlib.json"), os.path.join(out, "basic.executable.json")]
     if use_cache and all(os.path.exists(w) for w in want):
+        try:
+            os.utime(out, None)
+        except OSError:
+            pass
         return out
     os.makedirs(os.path.join(CACHE, "facts"), exist_ok=True)
     target_dir = target_dir or os.path.join(CACHE, "target-" + cfg)
@@ -140,7 +144,7 @@ def extract(repo=None, cfg="dev", target_dir=None, use_cache=True):
         if os.path.isdir(out):
             shutil.rmtree(out, ignore_errors=True)
         os.rename(tmp, out)
-        _prune(os.path.join(CACHE, "facts"), keep=12)
+        _prune(os.path.join(CACHE, "facts"), keep=30)
         return out
     finally:
         fcntl.flock(lock, fcntl.LOCK_UN)
